@@ -139,6 +139,29 @@ pub fn traj_equal(a: &Trajectories, b: &Trajectories) -> Option<String> {
     None
 }
 
+/// Like `traj_equal` but with a relative tolerance (an equivalent re-ordering of floating-point
+/// operations inside the engine must not raise an alarm; a wiring error is orders of magnitude larger).
+pub fn traj_close(a: &Trajectories, b: &Trajectories, tol: f64) -> Option<String> {
+    for (name, x, y) in [("spectrum", &a.spectrum, &b.spectrum), ("log-F0", &a.lf0, &b.lf0), ("low-pass", &a.lpf, &b.lpf)] {
+        if x.len() != y.len() {
+            return Some(format!("{}: {} vs {} frames", name, x.len(), y.len()));
+        }
+        for (t, (fx, fy)) in x.iter().zip(y).enumerate() {
+            if fx.len() != fy.len() {
+                return Some(format!("{} frame {}: {} vs {} values", name, t, fx.len(), fy.len()));
+            }
+            for (k, (vx, vy)) in fx.iter().zip(fy).enumerate() {
+                let same = vx == vy || (vx.is_nan() && vy.is_nan()) || (!vx.is_finite() && !vy.is_finite());
+                let nodata = *vx == -1e10 || *vy == -1e10;
+                if !same && (nodata || (vx - vy).abs() > tol * vx.abs().max(vy.abs()).max(1e-6)) {
+                    return Some(format!("{} frame {} dim {}: {:e} vs {:e}", name, t, k, vx, vy));
+                }
+            }
+        }
+    }
+    None
+}
+
 pub struct Synthesis;
 
 impl Prop for Synthesis {
@@ -147,7 +170,7 @@ impl Prop for Synthesis {
         "synthesis".into()
     }
     fn rule(&self) -> String {
-        "voice in {generated (2/3 streams, MCP or LSP stage 1..4, 1..7 states, window sets) 85 % | bundled | PDF-perturbed bundled}, 0..24 labels from {consecutive | shuffled | recombined | structurally random}, condition inside the envelope (each scalar default/edge/uniform 3:2:5; rate and frame-period overrides), alignment off or on with generated times; oracle: Ok, length == fperiod x F, F >= labels x states with every state >= 1, empty -> empty, finiteness w.r.t. the stable-range predicate, waveform == harness rendering of the hook trajectories, trajectories == public Models + MlpgAdjust recomputation. Non-trivial: >= 2 labels and (non-default condition or non-bundled voice)".into()
+        "voice in {generated (2/3 streams, MCP or LSP stage 1..4, 1..7 states, window sets) 85 % | bundled | PDF-perturbed bundled}, 0..24 labels from {consecutive | shuffled | recombined | structurally random}, condition inside the envelope (each scalar default/edge/uniform 3:2:5; rate and frame-period overrides), alignment off or on with generated times; oracle: Ok, length == fperiod x F, F >= labels x states with every state >= 1, empty -> empty, finiteness w.r.t. the stable-range predicate, waveform == harness rendering of the hook trajectories, trajectories == public Models + MlpgAdjust recomputation (1e-9). Non-trivial: >= 2 labels and (non-default condition or non-bundled voice)".into()
     }
     fn tape_len(&self, _: Tier) -> usize {
         12000
@@ -224,7 +247,7 @@ impl Prop for Synthesis {
         let random = crate::engine_case::source_is_random(&c.base.source);
         // (5a) trajectories == public recomputation with the documented wiring
         let publ = public_trajectories(&engine, &lines, &durations)?;
-        if let Some(d) = traj_equal(&tr, &publ) {
+        if let Some(d) = traj_close(&tr, &publ, 1e-9) {
             fail!("wiring-trajectories", "generator trajectories differ from Models + MlpgAdjust with (gv_weight[i], msd_threshold[i], stream i, half tone on stream 1): {}", d);
         }
         // (5b) waveform == harness rendering
@@ -243,13 +266,12 @@ impl Prop for Synthesis {
         };
         let mine = render(&p, &tr);
         ensure!(mine.len() == wave.len(), "wiring-waveform", "harness rendering has {} samples, engine {}", mine.len(), wave.len());
+        let scale = mine.iter().filter(|x| x.is_finite()).fold(0.0f64, |m, x| m.max(x.abs())) * volume;
         for (i, (a, b)) in wave.iter().zip(&mine).enumerate() {
             let want = b * volume;
-            let ok = if c.base.cond.volume_db == 0.0 {
-                a.to_bits() == b.to_bits() || (a.is_nan() && b.is_nan())
-            } else {
-                (a.is_nan() && want.is_nan()) || *a == want || (a - want).abs() <= 1e-12 * want.abs() || (!a.is_finite() && !want.is_finite())
-            };
+            // same Vocoder code on both sides: agreement is normally bitwise; the tolerance only
+            // keeps an equivalent re-ordering inside the engine from raising an alarm
+            let ok = (a.is_nan() && want.is_nan()) || *a == want || (!a.is_finite() && !want.is_finite()) || (a - want).abs() <= 1e-9 * want.abs().max(1e-6 * scale);
             ensure!(
                 ok,
                 "wiring-waveform",
